@@ -89,8 +89,10 @@ Proof.
 Qed.
 
 (* ---- an entity listed twice in skips -------------------------------------- *)
-(* <!ENTITY w "<b">  with reference  <!ENTITY w "10em">  has two error-level
-   check results; compare() appends the entity to skips for each *)
+(* merge() itself appends a reference text once per entry of skips.  Before
+   /repo b431102 compare() listed  <!ENTITY w "<b">  (reference
+   <!ENTITY w "10em">, two error-level check results) twice; it now lists every
+   entity once, which is the premise of C04_appended_once. *)
 Definition dtd_l10n : str :=   (* <!ENTITY w "<b">\n *)
   [60;33;69;78;84;73;84;89;32;119;32;34;60;98;34;62;10]%N.
 Definition dtd_ref_w : str :=  (* <!ENTITY w "10em"> *)
